@@ -12,8 +12,10 @@
 //! overwriting the *only* non-zero, negative unit with a positive value.
 
 use super::{ds, fits, hash_of, judge, show, NS};
-use jiff::civil::Date;
-use jiff::{SignedDuration, Span, SpanRelativeTo};
+use jiff::civil::{Date, DateTime};
+use jiff::{SignedDuration, Span, SpanArithmetic, SpanRelativeTo, SpanRound, SpanTotal, Unit};
+use rayon::prelude::*;
+use std::sync::atomic::{AtomicU64, Ordering};
 use refmodel::cal;
 use serde_json::json;
 use std::time::Duration;
@@ -118,9 +120,167 @@ fn show_span(s: &Span) -> String {
     }
 }
 
+/// Unit values and signum read through the public getters.
+type Snap = ([i128; 10], i8);
+
+fn snap(s: &Span) -> Snap {
+    (getters(s), s.signum())
+}
+
+/// The probe duration added to a span in the behavioural comparisons:
+/// 2 w 3 d 4 h 5 min 6 s 7 ms 8 us 9 ns. The sum is balanced up to the
+/// largest non-zero unit of the span, so it exposes which units the span
+/// believes to be non-zero.
+fn probe_duration() -> SignedDuration {
+    SignedDuration::new(((2 * 7 + 3) * 86_400) + 4 * 3_600 + 5 * 60 + 6, 7_008_009)
+}
+
+/// Civil datetime fields read through the public accessors.
+type DtFields = (i16, i8, i8, i8, i8, i8, i32);
+
+/// Light behavioural fingerprint: everything that depends on the span's
+/// notion of "which units are non-zero" (jiff caches that set).
+#[derive(PartialEq, Debug)]
+struct Fp {
+    /// 2000-02-29T12:00 + span (dispatches on calendar/time unit presence)
+    dt_add: Option<DtFields>,
+    /// span + probe duration, days are 24 hours (balances up to the largest unit)
+    plus: Option<Snap>,
+    /// total nanoseconds without a relative date (refused when the largest
+    /// unit is a day or bigger)
+    total_ns: Option<u64>,
+}
+
+fn fp(x: &Span) -> Fp {
+    let dt = Date::new(2000, 2, 29).expect("valid date").at(12, 0, 0, 0);
+    Fp {
+        dt_add: dt.checked_add(*x).ok().map(|d: DateTime| (d.year(), d.month(), d.day(), d.hour(), d.minute(), d.second(), d.subsec_nanosecond())),
+        plus: x.checked_add(SpanArithmetic::from(probe_duration()).days_are_24_hours()).ok().map(|r| snap(&r)),
+        total_ns: x.total(Unit::Nanosecond).ok().map(|f| f.to_bits()),
+    }
+}
+
+/// The fingerprint a span holding only `unit u = v` must have, computed from
+/// the model alone (civil arithmetic of `refmodel::cal`, exact i128
+/// nanoseconds, greedy balancing from the largest non-zero unit down):
+///  * 2000-02-29T12:00 + span: years/months by the calendar with the day
+///    clamped to the month's length, weeks/days as days, time units as exact
+///    nanoseconds; refused outside -9999-01-01..=9999-12-31;
+///  * span + probe duration with 24-hour days: refused for years/months,
+///    otherwise the exact sum balanced from the span's (only) non-zero unit
+///    down to nanoseconds (weeks only when that unit is weeks), refused when
+///    a balanced unit exceeds its limit;
+///  * total nanoseconds without a relative date: refused for non-zero
+///    years/months/weeks/days, otherwise the exact count.
+fn expect_fp(u: usize, v: i128) -> Fp {
+    const DAY_NS: i128 = 86_400 * NS;
+    let d0 = cal::days_from_civil(2000, 2, 29) as i128;
+    let in_range = |days: i128| days >= cal::min_day() as i128 && days <= cal::max_day() as i128;
+    let civil = |days: i128, tod: i128| -> Option<DtFields> {
+        if !in_range(days) {
+            return None;
+        }
+        let (y, m, d) = cal::civil_from_days(days as i64);
+        let secs = tod / NS;
+        Some((y as i16, m as i8, d as i8, (secs / 3_600) as i8, (secs / 60 % 60) as i8, (secs % 60) as i8, (tod % NS) as i32))
+    };
+    let noon = 12 * 3_600 * NS;
+    let dt_add = match u {
+        0 | 1 => {
+            let delta = if u == 0 { v * 12 } else { v };
+            // far outside any representable date: refused
+            if delta.abs() > 12 * 30_000 {
+                None
+            } else {
+                let (ny, nm) = cal::add_months(2000, 2, delta as i64);
+                if !(-9_999..=9_999).contains(&ny) {
+                    None
+                } else {
+                    let nd = 29.min(cal::days_in_month(ny, nm));
+                    civil(cal::days_from_civil(ny, nm, nd) as i128, noon)
+                }
+            }
+        }
+        2 => civil(d0 + 7 * v, noon),
+        3 => civil(d0 + v, noon),
+        _ => {
+            let t = noon + v * UNITS[u].ns.unwrap();
+            civil(d0 + t.div_euclid(DAY_NS), t.rem_euclid(DAY_NS))
+        }
+    };
+    let probe = probe_duration().as_nanos();
+    let plus = if v != 0 && u <= 1 {
+        None
+    } else {
+        let largest = if v == 0 { 9 } else { u };
+        let sum = if v == 0 { probe } else { v * UNITS[u].ns.unwrap() + probe };
+        let mut rem = sum.abs();
+        let mut vals = [0i128; 10];
+        let mut ok = true;
+        for i in largest.max(2)..10 {
+            if i == 2 && largest != 2 {
+                continue;
+            }
+            let per = UNITS[i].ns.unwrap();
+            let q = rem / per;
+            rem %= per;
+            if q > UNITS[i].limit as i128 {
+                ok = false;
+            }
+            vals[i] = q * sum.signum();
+        }
+        if ok {
+            Some((vals, sum.signum() as i8))
+        } else {
+            None
+        }
+    };
+    let total_ns = if v != 0 && u <= 3 { None } else { Some(((v * UNITS[u].ns.unwrap_or(0)) as f64).to_bits()) };
+    Fp { dt_add, plus, total_ns }
+}
+
+/// Full behavioural fingerprint of a span as a value.
+fn fp_full(x: &Span) -> String {
+    let date = Date::new(2000, 2, 29).expect("valid date");
+    let one_ns = Span::new().nanoseconds(1);
+    format!(
+        "light={:?} | to_sd={:?} | to_dur24={:?} | std={:?} | ts+={:?} | time+={:?} | date+={:?} | date-={:?} | total_s={:?} | total24_s={:?} | total_rel_h={:?} | +1ns={:?} | -1ns(24h)={:?} | cmp0={:?} | round_ns={:?} | disp={} | alt={:#} | dbg={:?}",
+        fp(x),
+        SignedDuration::try_from(*x).ok(),
+        x.to_duration(SpanRelativeTo::days_are_24_hours()).ok(),
+        Duration::try_from(*x).ok(),
+        jiff::Timestamp::UNIX_EPOCH.checked_add(*x).ok(),
+        jiff::civil::Time::midnight().checked_add(*x).ok(),
+        date.checked_add(*x).ok(),
+        date.checked_sub(*x).ok(),
+        x.total(Unit::Second).ok().map(|f| f.to_bits()),
+        x.total(SpanTotal::from(Unit::Second).days_are_24_hours()).ok().map(|f| f.to_bits()),
+        x.total((Unit::Hour, date)).ok().map(|f| f.to_bits()),
+        x.checked_add(one_ns).ok().map(|r| snap(&r)),
+        x.checked_sub((one_ns, SpanRelativeTo::days_are_24_hours())).ok().map(|r| snap(&r)),
+        x.compare((Span::new(), SpanRelativeTo::days_are_24_hours())).ok(),
+        x.round(SpanRound::new().smallest(Unit::Nanosecond).days_are_24_hours()).ok().map(|r| snap(&r)),
+        x,
+        x,
+        x,
+    )
+}
+
+pub static JUDGED: AtomicU64 = AtomicU64::new(0);
+pub static DECODED_BITS: AtomicU64 = AtomicU64::new(0);
+/// model expectations of the decode by outcome: [datetime sum in range, out of
+/// range, balanced sum ok, refused, total ok, refused]
+pub static EXPECT_CLASSES: [AtomicU64; 6] = [AtomicU64::new(0), AtomicU64::new(0), AtomicU64::new(0), AtomicU64::new(0), AtomicU64::new(0), AtomicU64::new(0)];
+
 /// Does the jiff span denote the model span? Checks every getter, signum,
-/// is_zero/is_positive/is_negative and the one-sign invariant.
+/// is_zero/is_positive/is_negative and the one-sign invariant; then that the
+/// span BEHAVES like a span freshly built from the same integers; then, unit
+/// by unit, that its hidden notion of "this unit is non-zero" agrees with the
+/// field (`unit-set decode`: every other unit is overwritten with 0 through
+/// the public setter, which re-derives that unit's own bookkeeping only; what
+/// is left must behave like `Span::new().<unit>(value)`).
 fn judge_span(s: &Span, m: &M) -> Option<String> {
+    JUDGED.fetch_add(1, Ordering::Relaxed);
     let res = guard(|| {
         let g = getters(s);
         let want = m.vals();
@@ -133,19 +293,46 @@ fn judge_span(s: &Span, m: &M) -> Option<String> {
         // A span is a value: it must BEHAVE like any other span holding the
         // same integers, however it was produced (hidden state such as a
         // cached set of non-zero units must not leak into later operations).
-        if let Some(fresh) = build(m) {
-            let probe = |x: &Span| -> String {
-                format!(
-                    "{:?}|{:?}|{:?}|{:?}",
-                    jiff::SignedDuration::try_from(*x).ok(),
-                    jiff::Timestamp::UNIX_EPOCH.checked_add(*x).ok(),
-                    jiff::civil::Time::midnight().checked_add(*x).ok(),
-                    x.total(jiff::Unit::Second).ok().map(|f| f.to_bits()),
-                )
-            };
-            let (a, b) = (probe(s), probe(&fresh));
+        let Some(fresh) = build(m) else {
+            return Some(format!("could not build a fresh span with the fields {}", m.show()));
+        };
+        let (a, b) = (fp_full(s), fp_full(&fresh));
+        if a != b {
+            return Some(format!("behaves differently from a span built from the same fields {}: {} vs {}", m.show(), a, b));
+        }
+        if s.fieldwise() != fresh.fieldwise() || hash_of(&s.fieldwise()) != hash_of(&fresh.fieldwise()) {
+            return Some(format!("fieldwise view differs (eq or hash) from a span built from the same fields {}", m.show()));
+        }
+        // unit-set decode
+        for u in 0..10 {
+            let mut t = *s;
+            for i in 0..10 {
+                if i != u {
+                    t = (UNITS[i].set)(t, 0);
+                }
+            }
+            DECODED_BITS.fetch_add(1, Ordering::Relaxed);
+            let mut wsnap: Snap = ([0; 10], want[u].signum() as i8);
+            wsnap.0[u] = want[u];
+            if snap(&t) != wsnap {
+                return Some(format!("after overwriting every unit but {} with 0: jiff {} | model {}={}", UNITS[u].name, show_span(&t), UNITS[u].name, want[u]));
+            }
+            // independent expectation (a setter that mis-keeps its own
+            // bookkeeping would corrupt a jiff-built reference alike)
+            let (a, b) = (fp(&t), expect_fp(u, want[u]));
+            EXPECT_CLASSES[if b.dt_add.is_some() { 0 } else { 1 }].fetch_add(1, Ordering::Relaxed);
+            EXPECT_CLASSES[if b.plus.is_some() { 2 } else { 3 }].fetch_add(1, Ordering::Relaxed);
+            EXPECT_CLASSES[if b.total_ns.is_some() { 4 } else { 5 }].fetch_add(1, Ordering::Relaxed);
             if a != b {
-                return Some(format!("behaves differently from a span built from the same fields {}: [try_into SignedDuration | epoch+span | midnight+span | total(Second)] = {} vs {}", m.show(), a, b));
+                return Some(format!(
+                    "unit bookkeeping for {} in a span with fields {}: after overwriting every other unit with 0 it does not behave like a span of {}={}: jiff {:?} | model {:?} [2000-02-29T12:00 + span | span + 2w3d4h5m6s7ms8us9ns (24-hour days) | total nanoseconds]",
+                    UNITS[u].name,
+                    m.show(),
+                    UNITS[u].name,
+                    want[u],
+                    a,
+                    b
+                ));
             }
         }
         None
@@ -262,99 +449,161 @@ pub fn overwrite(r: &Report) {
             }
         }
     }
-    r.outcome("overwrite_sequences", n);
-    r.outcome("overwrite_sign_unspecified(not judged)", unspecified);
-}
-
-/// All 3-unit subsets x all sign patterns {-,0,+}^3 x all 6 setting orders:
-/// model and jiff in lockstep after every step; negate/abs on every result.
-pub fn orders(r: &Report) {
-    let perms: [[usize; 3]; 6] = [[0, 1, 2], [0, 2, 1], [1, 0, 2], [1, 2, 0], [2, 0, 1], [2, 1, 0]];
-    let mags = [2i128, 3, 5];
-    let (mut nseq, mut nneg, mut npos, mut nzero) = (0u64, 0u64, 0u64, 0u64);
-    for a in 0..10 {
-        for b in a + 1..10 {
-            for c in b + 1..10 {
-                let us = [a, b, c];
-                for pat in 0..27 {
-                    let signs = [pat % 3 - 1, (pat / 3) % 3 - 1, (pat / 9) % 3 - 1];
-                    let vals: [i128; 3] = [signs[0] as i128 * mags[0], signs[1] as i128 * mags[1], signs[2] as i128 * mags[2]];
-                    for perm in perms {
-                        nseq += 1;
-                        r.add_states(1);
-                        r.add_transitions(5);
-                        r.add_validated(5);
-                        let case = format!(
-                            "{}({}) {}({}) {}({})",
-                            UNITS[us[perm[0]]].name, vals[perm[0]], UNITS[us[perm[1]]].name, vals[perm[1]], UNITS[us[perm[2]]].name, vals[perm[2]]
-                        );
-                        let mut m = M::zero();
-                        let mut s = match guard(Span::new) {
-                            Ok(s) => s,
-                            Err(p) => {
-                                r.viol("span_orders", &format!("Span::new/{}", panic_sig(&p)), case, p);
-                                continue;
-                            }
-                        };
-                        let mut failed = false;
-                        for (step, &k) in perm.iter().enumerate() {
-                            let u = us[k];
-                            let v = vals[k];
-                            m = m.set(u, v).expect("each unit set once: determined");
-                            // alternate between the panicking and the fallible setter
-                            let res = if (step + pat as usize) % 2 == 0 {
-                                guard(|| (UNITS[u].set)(s, v as i64))
-                            } else {
-                                guard(|| (UNITS[u].try_set)(s, v as i64).expect("within limit"))
-                            };
-                            match res {
-                                Err(p) => {
-                                    r.viol("span_orders", &format!("Span::{}/{}", UNITS[u].name, panic_sig(&p)), case.clone(), p);
-                                    failed = true;
-                                    break;
-                                }
-                                Ok(ns) => s = ns,
-                            }
-                            if let Some(d) = judge_span(&s, &m) {
-                                r.viol("span_orders", "Span::set(sequence)/one-sign-or-value", case.clone(), format!("after step {}: {}", step + 1, d));
-                                failed = true;
-                                break;
-                            }
-                        }
-                        if failed {
-                            continue;
-                        }
-                        match m.sign {
-                            -1 => nneg += 1,
-                            0 => nzero += 1,
-                            _ => npos += 1,
-                        }
-                        // negate / abs / Neg operator
-                        let mut mn = m;
-                        mn.sign = -m.sign;
-                        let mut ma = m;
-                        ma.sign = m.sign.abs();
-                        for (name, got, want) in [("negate", guard(|| s.negate()), mn), ("neg(operator)", guard(|| -s), mn), ("abs", guard(|| s.abs()), ma)] {
-                            match got {
-                                Err(p) => r.viol("span_orders", &format!("Span::{}/{}", name, panic_sig(&p)), case.clone(), p),
-                                Ok(g) => {
-                                    if let Some(d) = judge_span(&g, &want) {
-                                        r.viol("span_orders", &format!("Span::{}/value", name), case.clone(), d);
-                                    }
-                                }
-                            }
-                        }
+    // a value beyond the limit on a span that already holds units: refused
+    // by try_*, panic from the infallible setter (limits do not depend on the
+    // other units)
+    let mut refused = 0u64;
+    for (u, def) in UNITS.iter().enumerate() {
+        let other_u = (u + 3) % 10;
+        let l = def.limit as i128;
+        for other in [1i64, -1] {
+            for a in [0i64, 1, -1] {
+                for b in [l + 1, -(l + 1), i64::MAX as i128, i64::MIN as i128] {
+                    let Ok(b) = i64::try_from(b) else { continue };
+                    if (b as i128).abs() <= l {
+                        continue;
+                    }
+                    r.add_states(1);
+                    r.add_transitions(2);
+                    r.add_validated(2);
+                    let case = format!("{}({}) then {}({}) then {}({})", UNITS[other_u].name, other, def.name, a, def.name, b);
+                    let base = guard(|| (def.set)((UNITS[other_u].set)(Span::new(), other), a));
+                    let Ok(base) = base else {
+                        r.viol("span_overwrite", "Span::build/panic", case, "could not build the input span");
+                        continue;
+                    };
+                    match guard(|| (def.try_set)(base, b).map_err(|e| e.to_string())) {
+                        Err(p) => r.viol("span_overwrite", &format!("Span::try_{}/{}", def.name, panic_sig(&p)), case.clone(), p),
+                        Ok(Ok(g)) => r.viol("span_overwrite", &format!("Span::try_{}/accepted-beyond-limit", def.name), case.clone(), format!("jiff {} | limit {}", show_span(&g), def.limit)),
+                        Ok(Err(_)) => refused += 1,
+                    }
+                    if let Ok(g) = guard(|| (def.set)(base, b)) {
+                        r.viol("span_overwrite", &format!("Span::{}/no-panic-beyond-limit", def.name), case.clone(), format!("jiff {} | limit {} (documented to panic)", show_span(&g), def.limit));
                     }
                 }
             }
         }
     }
-    r.outcome("order_sequences", nseq);
+    r.outcome("overwrite_beyond_limit_refused", refused);
+    r.require(refused > 0, "beyond-limit values on non-empty spans are refused");
+    r.outcome("overwrite_sequences", n);
+    r.outcome("overwrite_sign_unspecified(not judged)", unspecified);
+}
+
+/// All 3-unit subsets (thorough: also all 4-unit subsets) x all sign patterns
+/// {-,0,+}^k x all k! setting orders x two magnitude sets (small primes; each
+/// unit's own limit): model and jiff in lockstep after every step;
+/// negate/abs/Neg on every result.
+pub fn orders(r: &Report) {
+    fn permutations(k: usize) -> Vec<Vec<usize>> {
+        fn rec(cur: &mut Vec<usize>, used: &mut Vec<bool>, k: usize, out: &mut Vec<Vec<usize>>) {
+            if cur.len() == k {
+                out.push(cur.clone());
+                return;
+            }
+            for i in 0..k {
+                if !used[i] {
+                    used[i] = true;
+                    cur.push(i);
+                    rec(cur, used, k, out);
+                    cur.pop();
+                    used[i] = false;
+                }
+            }
+        }
+        let mut out = vec![];
+        rec(&mut vec![], &mut vec![false; k], k, &mut out);
+        out
+    }
+    let small = [2i128, 3, 5, 7];
+    // (units, values) of every sequence, in setting order
+    let mut seqs: Vec<(Vec<usize>, Vec<i128>, usize)> = vec![];
+    let ks: &[usize] = if r.thorough() { &[3, 4] } else { &[3] };
+    for &k in ks {
+        let perms = permutations(k);
+        let mut subsets: Vec<Vec<usize>> = vec![];
+        for mask in 0u32..1024 {
+            if mask.count_ones() as usize == k {
+                subsets.push((0..10).filter(|i| mask >> i & 1 == 1).collect());
+            }
+        }
+        for us in &subsets {
+            for pat in 0..3usize.pow(k as u32) {
+                let signs: Vec<i128> = (0..k).map(|j| ((pat / 3usize.pow(j as u32)) % 3) as i128 - 1).collect();
+                for at_limit in [false, true] {
+                    let vals: Vec<i128> = (0..k).map(|j| signs[j] * if at_limit { UNITS[us[j]].limit as i128 } else { small[j] }).collect();
+                    for perm in &perms {
+                        seqs.push((perm.iter().map(|&j| us[j]).collect(), perm.iter().map(|&j| vals[j]).collect(), pat));
+                    }
+                }
+            }
+        }
+    }
+    let (nneg, npos, nzero) = (AtomicU64::new(0), AtomicU64::new(0), AtomicU64::new(0));
+    seqs.par_iter().for_each(|(us, vals, pat)| {
+        let k = us.len();
+        r.add_states(1);
+        r.add_transitions(k as u64 + 3);
+        r.add_validated(k as u64 + 3);
+        let case = (0..k).map(|j| format!("{}({})", UNITS[us[j]].name, vals[j])).collect::<Vec<_>>().join(" ");
+        let mut m = M::zero();
+        let mut s = match guard(Span::new) {
+            Ok(s) => s,
+            Err(p) => {
+                r.viol("span_orders", &format!("Span::new/{}", panic_sig(&p)), case, p);
+                return;
+            }
+        };
+        for step in 0..k {
+            let (u, v) = (us[step], vals[step]);
+            m = m.set(u, v).expect("each unit set once: determined");
+            // alternate between the panicking and the fallible setter
+            let res = if (step + pat) % 2 == 0 { guard(|| (UNITS[u].set)(s, v as i64)) } else { guard(|| (UNITS[u].try_set)(s, v as i64).expect("within limit")) };
+            match res {
+                Err(p) => {
+                    r.viol("span_orders", &format!("Span::{}/{}", UNITS[u].name, panic_sig(&p)), case.clone(), p);
+                    return;
+                }
+                Ok(ns) => s = ns,
+            }
+            if let Some(d) = judge_span(&s, &m) {
+                r.viol("span_orders", "Span::set(sequence)/one-sign-or-value", case.clone(), format!("after step {}: {}", step + 1, d));
+                return;
+            }
+        }
+        match m.sign {
+            -1 => nneg.fetch_add(1, Ordering::Relaxed),
+            0 => nzero.fetch_add(1, Ordering::Relaxed),
+            _ => npos.fetch_add(1, Ordering::Relaxed),
+        };
+        unary_ops(r, "span_orders", &s, &m, &case);
+    });
+    let (nneg, npos, nzero) = (nneg.into_inner(), npos.into_inner(), nzero.into_inner());
+    r.outcome("order_sequences", seqs.len() as u64);
     r.outcome("order_results_negative", nneg);
     r.outcome("order_results_positive", npos);
     r.outcome("order_results_zero", nzero);
     r.require(nneg > 0 && npos > 0 && nzero > 0, "setter sequences yield negative, positive and zero spans");
     r.sample(json!({"sequence": "days(2) hours(-3) minutes(5)", "model": "days=-2,hours=-3,minutes=-5"}));
+}
+
+/// negate / abs / Neg operator on a span already judged equal to `m`.
+fn unary_ops(r: &Report, section: &str, s: &Span, m: &M, case: &str) {
+    let s = *s;
+    let mut mn = *m;
+    mn.sign = -m.sign;
+    let mut ma = *m;
+    ma.sign = m.sign.abs();
+    for (name, got, want) in [("negate", guard(|| s.negate()), mn), ("neg(operator)", guard(|| -s), mn), ("abs", guard(|| s.abs()), ma)] {
+        match got {
+            Err(p) => r.viol(section, &format!("Span::{}/{}", name, panic_sig(&p)), case.to_string(), p),
+            Ok(g) => {
+                if let Some(d) = judge_span(&g, &want) {
+                    r.viol(section, &format!("Span::{}/value", name), case.to_string(), d);
+                }
+            }
+        }
+    }
 }
 
 fn build(m: &M) -> Option<Span> {
@@ -375,7 +624,6 @@ fn build(m: &M) -> Option<Span> {
 
 /// checked_mul and the `*` operator.
 pub fn mul(r: &Report) {
-    let (mut ok, mut err) = (0u64, 0u64);
     let mut spans: Vec<M> = vec![M::zero()];
     for (u, def) in UNITS.iter().enumerate() {
         let l = def.limit as i128;
@@ -393,16 +641,46 @@ pub fn mul(r: &Report) {
             spans.push(m);
         }
     }
-    for m in spans {
+    // every unit non-zero at once: 1, 3, the limit, a third of the limit
+    for sg in [1i128, -1] {
+        for pick in 0..4 {
+            let mut m = M::zero();
+            for i in 0..10 {
+                let l = UNITS[i].limit as i128;
+                m = m.set(i, sg * [1, 3, l, l / 3][pick]).unwrap();
+            }
+            spans.push(m);
+        }
+    }
+    // all pairs of units (thorough): one small, one at half its limit
+    if r.thorough() {
+        for a in 0..10 {
+            for b in 0..10 {
+                if a != b {
+                    for sg in [1i128, -1] {
+                        spans.push(M::zero().set(a, sg * 3).unwrap().set(b, sg * (UNITS[b].limit as i128 / 2)).unwrap());
+                    }
+                }
+            }
+        }
+    }
+    let (ok_c, err_c) = (AtomicU64::new(0), AtomicU64::new(0));
+    spans.par_iter().for_each(|m| {
+        let m = *m;
+        let (mut ok, mut err) = (0u64, 0u64);
         let Some(s) = build(&m) else {
             r.viol("span_mul", "Span::build/panic", m.show(), "could not build the input span");
-            continue;
+            return;
         };
         if let Some(d) = judge_span(&s, &m) {
             r.viol("span_mul", "Span::build/value", m.show(), d);
-            continue;
+            return;
         }
-        let mut factors: Vec<i64> = vec![0, 1, -1, 2, -2, 3, 4, i64::MIN, i64::MAX, i32::MAX as i64, i32::MIN as i64];
+        // negate / abs / Neg on every pool span (unit values at the limits)
+        r.add_transitions(3);
+        r.add_validated(3);
+        unary_ops(r, "span_mul", &s, &m, &m.show());
+        let mut factors: Vec<i64> = vec![0, 1, -1, 2, -2, 3, 4, i64::MIN, i64::MAX, i64::MIN + 1, i32::MAX as i64, i32::MIN as i64];
         for def in UNITS.iter() {
             for f in [def.limit, -def.limit, def.limit / 2, def.limit.saturating_add(1)] {
                 if !factors.contains(&f) {
@@ -454,30 +732,40 @@ pub fn mul(r: &Report) {
                     }
                 }
             }
-            // operator: panics exactly on overflow
-            match (guard(|| s * f), &want) {
-                (Err(p), Some(w)) => r.viol("span_mul", "Span::mul(operator)/spurious-panic", case.clone(), format!("panic {} | model {}", p, w.show())),
-                (Err(_), None) => {}
-                (Ok(g), None) => r.viol("span_mul", "Span::mul(operator)/no-panic", case.clone(), format!("jiff {} | model: overflow, documented to panic", show_span(&g))),
-                (Ok(g), Some(w)) => {
-                    if let Some(d) = judge_span(&g, w) {
-                        r.viol("span_mul", "Span::mul(operator)/value", case.clone(), d);
+            // operators (both operand orders): panic exactly on overflow
+            for (op, res) in [("Span::mul(operator)", guard(|| s * f)), ("Span::mul(operator,i64*span)", guard(|| f * s))] {
+                r.add_transitions(1);
+                r.add_validated(1);
+                match (res, &want) {
+                    (Err(p), Some(w)) => r.viol("span_mul", &format!("{}/spurious-panic", op), case.clone(), format!("panic {} | model {}", p, w.show())),
+                    (Err(_), None) => {}
+                    (Ok(g), None) => r.viol("span_mul", &format!("{}/no-panic", op), case.clone(), format!("jiff {} | model: overflow, documented to panic", show_span(&g))),
+                    (Ok(g), Some(w)) => {
+                        if let Some(d) = judge_span(&g, w) {
+                            r.viol("span_mul", &format!("{}/value", op), case.clone(), d);
+                        }
                     }
                 }
             }
         }
-    }
+        ok_c.fetch_add(ok, Ordering::Relaxed);
+        err_c.fetch_add(err, Ordering::Relaxed);
+    });
+    let (ok, err) = (ok_c.into_inner(), err_c.into_inner());
     r.outcome("span_mul_ok", ok);
     r.outcome("span_mul_err", err);
     r.require(ok > 0 && err > 0, "checked_mul both succeeds and overflows");
 }
 
 /// fieldwise(): equal and hash-equal exactly when all ten unit values agree,
-/// however the spans were built.
+/// however the spans were built. All ten units take part, with several
+/// magnitudes; every comparison impl (`SpanFieldwise == SpanFieldwise`,
+/// `== Span`, `Span ==`, `&Span ==`, `&SpanFieldwise ==`), `Neg for
+/// SpanFieldwise`, `From` in both directions and `Default`.
 pub fn fieldwise(r: &Report) {
     let perms: [[usize; 3]; 6] = [[0, 1, 2], [0, 2, 1], [1, 0, 2], [1, 2, 0], [2, 0, 1], [2, 1, 0]];
     let mut items: Vec<(M, Span)> = vec![];
-    for us in [[0usize, 3, 9], [1, 4, 6], [0, 1, 3]] {
+    for us in [[0usize, 3, 9], [1, 4, 6], [0, 1, 3], [2, 5, 7], [5, 7, 8], [2, 8, 9]] {
         for pat in 0..27i32 {
             let signs = [pat % 3 - 1, (pat / 3) % 3 - 1, (pat / 9) % 3 - 1];
             // magnitudes 1 so that different subsets/patterns collide on purpose
@@ -499,8 +787,62 @@ pub fn fieldwise(r: &Report) {
             }
         }
     }
-    let (mut eqs, mut nes) = (0u64, 0u64);
-    for (ma, a) in &items {
+    // each unit alone with several magnitudes (values differing only in high
+    // or only in low bits), built directly and through negation
+    for (u, def) in UNITS.iter().enumerate() {
+        let l = def.limit as i128;
+        for v in [1i128, 2, 3, 256, 257, l - 1, l] {
+            for sg in [1i128, -1] {
+                let m = M::zero().set(u, sg * v).unwrap();
+                if let Some(s) = build(&m) {
+                    items.push((m, s));
+                }
+                // the same value reached by negating the opposite one
+                let mo = M::zero().set(u, -sg * v).unwrap();
+                if let Some(Ok(s)) = build(&mo).map(|s| guard(|| -s)) {
+                    items.push((m, s));
+                }
+            }
+        }
+    }
+    // all ten units set: spans that differ in exactly one unit
+    for sg in [1i128, -1] {
+        let mut base = M::zero();
+        for i in 0..10 {
+            base = base.set(i, sg * 4).unwrap();
+        }
+        if let Some(s) = build(&base) {
+            items.push((base, s));
+        }
+        for i in 0..10 {
+            for v in [0i128, 5] {
+                // units are set in a rotated order, the changed unit last
+                let mut m = M::zero();
+                let s = guard(|| {
+                    let mut s = Span::new();
+                    for k in 1..=10 {
+                        let j = (i + k) % 10;
+                        s = (UNITS[j].set)(s, (sg * if j == i { v } else { 4 }) as i64);
+                    }
+                    s
+                });
+                for k in 1..=10 {
+                    let j = (i + k) % 10;
+                    m = m.set(j, sg * if j == i { v } else { 4 }).unwrap();
+                }
+                if let Ok(s) = s {
+                    items.push((m, s));
+                }
+            }
+        }
+    }
+    for (m, s) in &items {
+        if let Some(d) = judge_span(s, m) {
+            r.viol("span_fieldwise", "Span::build/value", m.show(), d);
+        }
+    }
+    let (eqs, nes, hash_split) = (AtomicU64::new(0), AtomicU64::new(0), AtomicU64::new(0));
+    items.par_iter().for_each(|(ma, a)| {
         for (mb, b) in &items {
             r.add_transitions(1);
             r.add_validated(1);
@@ -508,17 +850,22 @@ pub fn fieldwise(r: &Report) {
             let case = || format!("{} vs {}", ma.show(), mb.show());
             match guard(|| {
                 let (fa, fb) = (a.fieldwise(), b.fieldwise());
-                (fa == fb, fa == *b, *a == fb, hash_of(&fa) == hash_of(&fb))
+                let (ca, cb) = (jiff::SpanFieldwise::from(*a), jiff::SpanFieldwise(*b));
+                ([fa == fb, fa == *b, *a == fb, &*a == fb, &fa == fb, ca == cb, -fa == -fb, fa != fb], hash_of(&fa) == hash_of(&fb))
             }) {
                 Err(p) => r.viol("span_fieldwise", &format!("Span::fieldwise/{}", panic_sig(&p)), case(), p),
-                Ok((e1, e2, e3, h)) => {
+                Ok((e, h)) => {
                     if want {
-                        eqs += 1
+                        eqs.fetch_add(1, Ordering::Relaxed);
                     } else {
-                        nes += 1
+                        nes.fetch_add(1, Ordering::Relaxed);
+                        if !h {
+                            hash_split.fetch_add(1, Ordering::Relaxed);
+                        }
                     }
-                    if e1 != want || e2 != want || e3 != want {
-                        r.viol("span_fieldwise", "SpanFieldwise::eq/value", case(), format!("jiff {} {} {} model {}", e1, e2, e3, want));
+                    let wants = [want, want, want, want, want, want, want, !want];
+                    if e != wants {
+                        r.viol("span_fieldwise", "SpanFieldwise::eq/value", case(), format!("jiff [ff, f==span, span==f, &span==f, &f==f, from/ctor, neg==neg, !=] = {:?} model {:?}", e, wants));
                     }
                     if want && !h {
                         r.viol("span_fieldwise", "SpanFieldwise::hash/equal-values-hash-differently", case(), "hash differs");
@@ -526,11 +873,51 @@ pub fn fieldwise(r: &Report) {
                 }
             }
         }
+    });
+    // Neg for SpanFieldwise, From<SpanFieldwise> for Span: the wrapped span is
+    // a faithful value
+    for (m, s) in &items {
+        r.add_transitions(2);
+        r.add_validated(2);
+        let mut mn = *m;
+        mn.sign = -m.sign;
+        match guard(|| (Span::from(s.fieldwise()), Span::from(-s.fieldwise()), (-s.fieldwise()).0)) {
+            Err(p) => r.viol("span_fieldwise", &format!("SpanFieldwise::neg-or-into/{}", panic_sig(&p)), m.show(), p),
+            Ok((same, neg, neg0)) => {
+                if let Some(d) = judge_span(&same, m) {
+                    r.viol("span_fieldwise", "Span::from(SpanFieldwise)/value", m.show(), d);
+                }
+                for g in [neg, neg0] {
+                    if let Some(d) = judge_span(&g, &mn) {
+                        r.viol("span_fieldwise", "SpanFieldwise::neg/value", m.show(), d);
+                    }
+                }
+            }
+        }
     }
+    r.add_validated(3);
+    match guard(|| (jiff::SpanFieldwise::default().0, Span::default(), Span::new())) {
+        Err(p) => r.viol("span_fieldwise", &format!("Span::default/{}", panic_sig(&p)), "default", p),
+        Ok((a, b, c)) => {
+            for (name, g) in [("SpanFieldwise::default", a), ("Span::default", b), ("Span::new", c)] {
+                if let Some(d) = judge_span(&g, &M::zero()) {
+                    r.viol("span_fieldwise", &format!("{}/value", name), "default", d);
+                }
+            }
+        }
+    }
+    let (eqs, nes, hash_split) = (eqs.into_inner(), nes.into_inner(), hash_split.into_inner());
     r.add_states(items.len() as u64);
+    r.outcome("fieldwise_items", items.len() as u64);
     r.outcome("fieldwise_equal_pairs", eqs);
     r.outcome("fieldwise_unequal_pairs", nes);
+    r.outcome("fieldwise_unequal_pairs_with_different_hash(informative)", hash_split);
     r.require(eqs > items.len() as u64 && nes > 0, "fieldwise pairs include equal spans built in different orders");
+    // every unit decides some comparison on its own
+    for u in 0..10 {
+        let n = items.iter().filter(|(m, _)| m.mag.iter().all(|&x| x == 4 || x == 5 || x == 0) && m.mag.iter().filter(|&&x| x != 4).count() == 1 && m.mag[u] != 4).count();
+        r.require(n >= 2, &format!("fieldwise pool holds spans that differ from the all-4 span only in {}", UNITS[u].name));
+    }
 }
 
 fn invariant_ns(m: &M) -> i128 {
@@ -648,13 +1035,15 @@ pub fn to_duration(r: &Report) {
             for months in [0i128, 1, -1, 13, -13] {
                 for days in [0i128, 1, -31] {
                     for hours in [0i128, 25, -25] {
+                      for weeks in [0i128, 1, -1] {
+                        for nanos in [0i128, 999_999_999, -999_999_999] {
                         // a span has one sign: skip mixed-sign combinations
-                        let all = [years, months, days, hours];
+                        let all = [years, months, days, hours, weeks, nanos];
                         if all.iter().any(|&x| x > 0) && all.iter().any(|&x| x < 0) {
                             continue;
                         }
                         let mut m = M::zero();
-                        for (u, v) in [(0usize, years), (1, months), (3, days), (4, hours)] {
+                        for (u, v) in [(0usize, years), (1, months), (2, weeks), (3, days), (4, hours), (9, nanos)] {
                             if v != 0 {
                                 m = m.set(u, v).unwrap();
                             }
@@ -666,22 +1055,38 @@ pub fn to_duration(r: &Report) {
                         r.add_validated(1);
                         let (ny, nm) = cal::add_months(y, mo, (years * 12 + months) as i64);
                         let nd = d.min(cal::days_in_month(ny, nm));
-                        let end = cal::days_from_civil(ny, nm, nd) as i128 + days;
-                        let exact = (end - start as i128) * 86_400 * NS + hours * 3_600 * NS;
-                        let case = format!("{} relative to {:04}-{:02}-{:02}", m.show(), y, mo, d);
-                        let got = guard(|| {
-                            let date = Date::new(y as i16, mo as i8, d as i8).expect("valid date");
-                            s.to_duration(date).map_err(|e| e.to_string())
-                        });
-                        match got {
-                            Err(p) => r.viol("span_to_duration", &format!("Span::to_duration(date)/{}", panic_sig(&p)), case, p),
-                            Ok(Err(e)) => r.viol("span_to_duration", "Span::to_duration(date)/spurious-error", case, format!("jiff Err({}) | model {}", e, ds(exact))),
-                            Ok(Ok(dur)) => {
-                                if let Ok(Some(detail)) = guard(|| judge(dur, exact)) {
-                                    r.viol("span_to_duration", "Span::to_duration(date)/value", case, detail);
+                        let end = cal::days_from_civil(ny, nm, nd) as i128 + 7 * weeks + days;
+                        let exact = (end - start as i128) * 86_400 * NS + hours * 3_600 * NS + nanos;
+                        // relative to the civil date, to a civil datetime late in
+                        // that day, and to zoned datetimes in UTC and at a fixed
+                        // offset (no transitions: every day has 24 hours)
+                        for kind in ["date", "datetime", "zoned-utc", "zoned-fixed"] {
+                            r.add_transitions(1);
+                            r.add_validated(1);
+                            let got = guard(|| {
+                                let date = Date::new(y as i16, mo as i8, d as i8).expect("valid date");
+                                let dt = date.at(23, 59, 59, 999_999_999);
+                                match kind {
+                                    "date" => s.to_duration(date),
+                                    "datetime" => s.to_duration(dt),
+                                    "zoned-utc" => s.to_duration(&dt.to_zoned(jiff::tz::TimeZone::UTC).expect("utc")),
+                                    _ => s.to_duration(&dt.to_zoned(jiff::tz::TimeZone::fixed(jiff::tz::Offset::from_seconds(-5 * 3600 - 1800).expect("offset"))).expect("fixed")),
+                                }
+                                .map_err(|e| e.to_string())
+                            });
+                            let case = format!("{} relative to {:04}-{:02}-{:02}{}", m.show(), y, mo, d, if kind == "date" { String::new() } else { format!(" ({})", kind) });
+                            match got {
+                                Err(p) => r.viol("span_to_duration", &format!("Span::to_duration({})/{}", kind, panic_sig(&p)), case, p),
+                                Ok(Err(e)) => r.viol("span_to_duration", &format!("Span::to_duration({})/spurious-error", kind), case, format!("jiff Err({}) | model {}", e, ds(exact))),
+                                Ok(Ok(dur)) => {
+                                    if let Ok(Some(detail)) = guard(|| judge(dur, exact)) {
+                                        r.viol("span_to_duration", &format!("Span::to_duration({})/value", kind), case, detail);
+                                    }
                                 }
                             }
                         }
+                        }
+                      }
                     }
                 }
             }
@@ -780,4 +1185,227 @@ pub fn from_duration(r: &Report) {
     r.outcome("span_from_duration_ok", ok);
     r.outcome("span_from_duration_err", err);
     r.require(ok > 0 && err > 0, "duration->span conversions both succeed and fail");
+}
+
+/// `ToSpan` for i8/i16/i32/i64: plural and singular method of every unit on
+/// the type's extremes, small values and the unit limit (where the type can
+/// hold it). Documented: panics exactly when `Span::new().<unit>(v)` would.
+pub fn tospan(r: &Report) {
+    use jiff::ToSpan;
+    let (mut ok, mut panics) = (0u64, 0u64);
+    macro_rules! width {
+        ($ty:ty, $tname:expr) => {{
+            type Mk = fn($ty) -> Span;
+            let methods: [(Mk, Mk); 10] = [
+                (<$ty as ToSpan>::years, <$ty as ToSpan>::year),
+                (<$ty as ToSpan>::months, <$ty as ToSpan>::month),
+                (<$ty as ToSpan>::weeks, <$ty as ToSpan>::week),
+                (<$ty as ToSpan>::days, <$ty as ToSpan>::day),
+                (<$ty as ToSpan>::hours, <$ty as ToSpan>::hour),
+                (<$ty as ToSpan>::minutes, <$ty as ToSpan>::minute),
+                (<$ty as ToSpan>::seconds, <$ty as ToSpan>::second),
+                (<$ty as ToSpan>::milliseconds, <$ty as ToSpan>::millisecond),
+                (<$ty as ToSpan>::microseconds, <$ty as ToSpan>::microsecond),
+                (<$ty as ToSpan>::nanoseconds, <$ty as ToSpan>::nanosecond),
+            ];
+            for (u, def) in UNITS.iter().enumerate() {
+                let l = def.limit as i128;
+                let mut vals: Vec<$ty> = vec![];
+                for x in [0i128, 1, -1, 2, -2, <$ty>::MIN as i128, <$ty>::MAX as i128, <$ty>::MIN as i128 + 1, l - 1, l, l + 1, -(l - 1), -l, -(l + 1)] {
+                    if let Ok(x) = <$ty>::try_from(x) {
+                        if !vals.contains(&x) {
+                            vals.push(x);
+                        }
+                    }
+                }
+                for v in vals {
+                    let within = (v as i128).abs() <= l;
+                    let model = M::zero().set(u, v as i128).expect("fresh span: determined");
+                    for (which, f) in [("plural", methods[u].0), ("singular", methods[u].1)] {
+                        let case = format!("{}{}.{}({})", v, $tname, def.name, which);
+                        r.add_states(1);
+                        r.add_transitions(1);
+                        r.add_validated(1);
+                        match guard(|| f(v)) {
+                            Err(p) => {
+                                panics += 1;
+                                if within {
+                                    r.viol("span_tospan", &format!("ToSpan::{}/spurious-panic", def.name), case, format!("panic {} | limit {}", p, def.limit));
+                                }
+                            }
+                            Ok(s) => {
+                                ok += 1;
+                                if !within {
+                                    r.viol("span_tospan", &format!("ToSpan::{}/no-panic-beyond-limit", def.name), case, format!("jiff {} | limit {} (documented to panic)", show_span(&s), def.limit));
+                                } else if let Some(d) = judge_span(&s, &model) {
+                                    r.viol("span_tospan", &format!("ToSpan::{}/value", def.name), case, d);
+                                }
+                            }
+                        }
+                    }
+                }
+            }
+        }};
+    }
+    width!(i8, "i8");
+    width!(i16, "i16");
+    width!(i32, "i32");
+    width!(i64, "i64");
+    r.outcome("tospan_ok", ok);
+    r.outcome("tospan_panic", panics);
+    r.require(ok > 0 && panics > 0, "ToSpan constructors both succeed and panic");
+}
+
+/// `Unit`: documented total order (bigger units compare greater), Eq and
+/// Hash consistent with it.
+pub fn unit_enum(r: &Report) {
+    // smallest to biggest, as documented
+    let units = [Unit::Nanosecond, Unit::Microsecond, Unit::Millisecond, Unit::Second, Unit::Minute, Unit::Hour, Unit::Day, Unit::Week, Unit::Month, Unit::Year];
+    let mut distinct_hashes = std::collections::BTreeSet::new();
+    for (i, a) in units.iter().enumerate() {
+        distinct_hashes.insert(hash_of(a));
+        for (j, b) in units.iter().enumerate() {
+            r.add_states(1);
+            r.add_transitions(1);
+            r.add_validated(1);
+            let case = format!("{:?} vs {:?}", a, b);
+            match guard(|| (a.cmp(b), a.partial_cmp(b), a == b, a < b, a >= b, (*a).max(*b), hash_of(a) == hash_of(b))) {
+                Err(p) => r.viol("span_unit_enum", &format!("Unit::cmp/{}", panic_sig(&p)), case, p),
+                Ok((c, pc, e, lt, ge, mx, h)) => {
+                    let w = i.cmp(&j);
+                    if c != w || pc != Some(w) || e != (i == j) || lt != (i < j) || ge != (i >= j) || mx != units[i.max(j)] {
+                        r.viol("span_unit_enum", "Unit::cmp/value", case, format!("jiff cmp {:?} partial {:?} eq {} lt {} ge {} max {:?} | model {:?}", c, pc, e, lt, ge, mx, w));
+                    } else if i == j && !h {
+                        r.viol("span_unit_enum", "Unit::hash/equal-values-hash-differently", case, "hash differs");
+                    }
+                }
+            }
+        }
+    }
+    r.outcome("unit_distinct_hashes(informative)", distinct_hashes.len() as u64);
+}
+
+/// Spans RETURNED by other operations (arithmetic between spans, rounding,
+/// differences of dates/times/instants, parsing) are values too: whatever the
+/// operation computed, the result must hold one sign, and behave - including
+/// its hidden unit bookkeeping - like a span freshly built from the integers
+/// its getters report. No value oracle is involved here (the values belong to
+/// C07/C08/C11/C15); only the internal consistency of each result is judged.
+pub fn derived(r: &Report) {
+    use jiff::civil::Time;
+    use jiff::{RoundMode, Timestamp};
+    let n = AtomicU64::new(0);
+    let errs = AtomicU64::new(0);
+    let consistent = |op: &str, case: String, got: Result<Result<Span, jiff::Error>, String>| {
+        r.add_states(1);
+        r.add_transitions(1);
+        r.add_validated(1);
+        match got {
+            Err(p) => r.viol("span_derived", &format!("{}/{}", op, panic_sig(&p)), case, p),
+            Ok(Err(_)) => {
+                errs.fetch_add(1, Ordering::Relaxed);
+            }
+            Ok(Ok(s)) => {
+                n.fetch_add(1, Ordering::Relaxed);
+                let Ok((g, sg)) = guard(|| snap(&s)) else {
+                    r.viol("span_derived", &format!("{}/span-result-accessors-panic", op), case, "getters panic");
+                    return;
+                };
+                let mixed = g.iter().any(|&x| x > 0) && g.iter().any(|&x| x < 0);
+                let mut m = M::zero();
+                for i in 0..10 {
+                    m.mag[i] = g[i].abs();
+                }
+                m.sign = if g.iter().any(|&x| x < 0) { -1 } else if g.iter().any(|&x| x > 0) { 1 } else { 0 };
+                if mixed || sg != m.sign {
+                    r.viol("span_derived", &format!("{}/span-result-sign", op), case, format!("jiff {}", show_span(&s)));
+                } else if let Some(d) = judge_span(&s, &m) {
+                    r.viol("span_derived", &format!("{}/span-result-inconsistent", op), case, d);
+                }
+            }
+        }
+    };
+    // ---- span (+|-) span, span + duration, rounding
+    let mut pool: Vec<M> = vec![M::zero()];
+    for (u, v) in [(0usize, 1i128), (1, 13), (2, 3), (3, 40), (4, 25), (5, 90), (6, 3_601), (7, 1_500), (8, 2_000_001), (9, 1_000_000_123)] {
+        for sg in [1i128, -1] {
+            pool.push(M::zero().set(u, sg * v).unwrap());
+        }
+    }
+    for sg in [1i128, -1] {
+        pool.push(M::zero().set(3, sg * 1).unwrap().set(4, sg * 23).unwrap().set(5, sg * 59).unwrap().set(9, sg * 999_999_999).unwrap());
+        pool.push(M::zero().set(0, sg * 1).unwrap().set(1, sg * 11).unwrap().set(3, sg * 30).unwrap());
+        pool.push(M::zero().set(2, sg * 1).unwrap().set(6, sg * 59).unwrap().set(7, sg * 999).unwrap());
+    }
+    let built: Vec<(M, Span)> = pool.iter().filter_map(|m| build(m).map(|s| (*m, s))).collect();
+    let date = Date::new(2024, 1, 31).expect("valid date");
+    let units = [Unit::Nanosecond, Unit::Microsecond, Unit::Millisecond, Unit::Second, Unit::Minute, Unit::Hour, Unit::Day, Unit::Week, Unit::Month, Unit::Year];
+    built.par_iter().for_each(|(ma, a)| {
+        for (mb, b) in &built {
+            let case = |op: &str| format!("{} {} {}", ma.show(), op, mb.show());
+            consistent("Span::checked_add(span,date)", case("+(rel 2024-01-31)"), guard(|| a.checked_add((*b, date))));
+            consistent("Span::checked_sub(span,date)", case("-(rel 2024-01-31)"), guard(|| a.checked_sub((*b, date))));
+            consistent("Span::checked_add(span,24h)", case("+(24h days)"), guard(|| a.checked_add((*b, SpanRelativeTo::days_are_24_hours()))));
+            consistent("Span::checked_sub(span)", case("-"), guard(|| a.checked_sub(*b)));
+        }
+        consistent("Span::checked_add(duration,date)", format!("{} + probe duration (rel 2024-01-31)", ma.show()), guard(|| a.checked_add((probe_duration(), date))));
+        consistent("Span::checked_sub(duration)", format!("{} - probe duration", ma.show()), guard(|| a.checked_sub(probe_duration())));
+        for &smallest in &units {
+            for &largest in &units {
+                if largest < smallest {
+                    continue;
+                }
+                for (inc, mode) in [(1i64, RoundMode::HalfExpand), (2, RoundMode::Trunc), (1, RoundMode::Floor)] {
+                    let case = format!("{} round smallest={:?} largest={:?} inc={} {:?} (rel 2024-01-31)", ma.show(), smallest, largest, inc, mode);
+                    consistent("Span::round", case, guard(|| a.round(SpanRound::new().smallest(smallest).largest(largest).increment(inc).mode(mode).relative(date))));
+                }
+            }
+        }
+    });
+    // ---- differences
+    let dates = [(2024i16, 1i8, 31i8), (2024, 2, 29), (2023, 3, 1), (1970, 1, 1), (-9999, 1, 1), (9999, 12, 31), (2024, 1, 31)];
+    let times = [(0i8, 0i8, 0i8, 0i32), (23, 59, 59, 999_999_999), (12, 30, 0, 1), (12, 30, 0, 0)];
+    for &(y1, m1, d1) in &dates {
+        for &(y2, m2, d2) in &dates {
+            let (a, b) = (Date::new(y1, m1, d1).expect("date"), Date::new(y2, m2, d2).expect("date"));
+            for &largest in &units[6..] {
+                let case = format!("{} until {} largest={:?}", a, b, largest);
+                consistent("Date::until", case.clone(), guard(|| a.until((largest, b))));
+                consistent("Date::since", case, guard(|| a.since((largest, b))));
+            }
+            for &(h1, mi1, s1, n1) in &times {
+                for &(h2, mi2, s2, n2) in &times {
+                    let (da, db) = (a.at(h1, mi1, s1, n1), b.at(h2, mi2, s2, n2));
+                    for &largest in &[Unit::Nanosecond, Unit::Second, Unit::Hour, Unit::Day, Unit::Month, Unit::Year] {
+                        let case = format!("{} until {} largest={:?}", da, db, largest);
+                        consistent("DateTime::until", case.clone(), guard(|| da.until((largest, db))));
+                        if let (Ok(za), Ok(zb)) = (da.to_zoned(jiff::tz::TimeZone::UTC), db.to_zoned(jiff::tz::TimeZone::UTC)) {
+                            consistent("Zoned::until", case.clone(), guard(|| za.until((largest, &zb))));
+                            if largest <= Unit::Hour {
+                                consistent("Timestamp::until", case, guard(|| za.timestamp().until((largest, zb.timestamp()))));
+                            }
+                        }
+                    }
+                }
+            }
+        }
+    }
+    for &(h1, mi1, s1, n1) in &times {
+        for &(h2, mi2, s2, n2) in &times {
+            let (a, b) = (Time::new(h1, mi1, s1, n1).expect("time"), Time::new(h2, mi2, s2, n2).expect("time"));
+            for &largest in &units[..6] {
+                consistent("Time::until", format!("{} until {} largest={:?}", a, b, largest), guard(|| a.until((largest, b))));
+            }
+        }
+    }
+    consistent("Timestamp::until", "MIN until MAX largest=Second".into(), guard(|| Timestamp::MIN.until((Unit::Second, Timestamp::MAX))));
+    consistent("Timestamp::since", "MIN since MAX largest=Hour".into(), guard(|| Timestamp::MIN.since((Unit::Hour, Timestamp::MAX))));
+    // ---- parsing (ISO 8601 and friendly)
+    for text in ["P1Y2M3W4DT5H6M7.008009010S", "-P1Y2M3W4DT5H6M7.008009010S", "PT0S", "P0D", "-PT0.000000001S", "PT1.5H", "P19998Y", "PT631107417600S", "1y 2mo 3w 4d 5h 6m 7s 8ms 9us 10ns", "1h ago", "0s", "2 days, 03:04:05.5", "-PT9223372036.854775807S"] {
+        consistent("Span::from_str", format!("parse {:?}", text), guard(|| text.parse::<Span>()));
+    }
+    let (n, errs) = (n.into_inner(), errs.into_inner());
+    r.outcome("span_derived_results_judged", n);
+    r.outcome("span_derived_operations_refused(not judged)", errs);
+    r.require(n > 1_000, "other operations return spans to judge");
 }
